@@ -75,8 +75,27 @@ fixed = [
   [repro('C03', 'fmt(fmt(x))==fmt(x)', '#table(columns: ((1fr, 2fr)), [a], [b], [c], [d])', cfg(49)), repro('C03', 'fmt(fmt(x))==fmt(x)', '#table(columns: (2), [a], [b], [c], [d])', cfg(30))]),
  ('FX13-field-access-comment-dropped', ['C06'], 'comments inside a field access outside code mode', '`#show heading/* c */.where(level: 1): it => it` lost the comment',
   [repro('C06', 'comment-stream', '#show heading/* c */.where(level: 1): it => it'), repro('C06', 'comment-stream', '#set a./* c5 */b(c)', cfg(0))]),
+ ('FX14-import-reorder-comment-before-items', ['C19'], 'although a comment sat in the import before the items', '`#import calc: /* c */ x2.x1, Gamma._u as zeta` was reordered although the import contains a comment',
+  [repro('C19', 'import-items', '#import calc: /* c */ x2.x1, Gamma._u as zeta', cfg(80, 2, True)), repro('C19', 'import-items', '#import "a": /* c */ b, a', cfg(0, 2, True))]),
+ ('FX15-import-line-comment-before-items', ['C04'], 'a line comment between the colon and the items of an import', '`#(import "a.typ": // c⏎ (x, y))` -> the comment swallowed the items',
+  [repro('C04', 'output-parses', '#(import "a.typ": // c\n  (x, y))'), repro('C04', 'output-parses', '#{\n  import "a.typ": // c\n  (x, y)\n}', cfg(0))]),
+ ('FX16-range-math-hash-mode', ['C13'], 'range formatting treated code embedded in math', 'range 2..4 of `$#f(1, 2)[x]$` returned `f(1, 2 [x])` (math argument layout for a code call): syntax error after splicing',
+  [repro('C13', 'range-format', '$#f(1, 2)[x]$', cfg(), {'start': 2, 'end': 4}), repro('C13', 'range-format', '$x^#text(red)[1]$', cfg(0), {'start': 4, 'end': 9})]),
+ ('FX17-range-callee-parenthesized', ['C13'], 'range formatting of the callee of a call', 'range 1..8 of `#a.b(1).c(2)` at a narrow width returned `(a.b(1)⏎.c)`: `(a.b(1).c)(2)` is a field access + call, not a method call',
+  [repro('C13', 'range-format', '#a.b(1).c(2)', cfg(0), {'start': 1, 'end': 8}), repro('C13', 'range-format', '#f(a.b(1).c(2))', cfg(0), {'start': 3, 'end': 10})]),
+ ('FX18-range-nested-markup', ['C13'], 'range formatting of the body of a content block', 'an empty range inside `#[ a ]` returned the body without its edge blanks (`#[a]`); the body of a list item lost the nesting of its children',
+  [repro('C13', 'range-format', '#[ a ]', cfg(), {'start': 2, 'end': 2}), repro('C13', 'range-format', '* a *', cfg(), {'start': 1, 'end': 1}), repro('C13', 'range-format', '- a\n  - b\n    - c', cfg(), {'start': 1, 'end': 7})]),
+ ('FX19-range-indent-from-node', ['C13'], 'range formatting took the indentation from the start of the requested range', 'range 10..10 of `- a⏎  - b⏎    - c` re-indented the item `- b…` by 0 instead of 2; on the first line (`  - a⏎    - b⏎  - c`) the indentation was ignored',
+  [repro('C13', 'range-format', '- a\n  - b\n    - c', cfg(), {'start': 10, 'end': 10}), repro('C13', 'range-format', '  - a\n    - b\n  - c', cfg(), {'start': 0, 'end': 3})]),
+ ('FX20-range-blank-unit', ['C13'], 'range formatting of a blank line inside a list item', 'an empty range on the blank line of `- a⏎⏎  b` replaced the paragraph break (which ends with the indentation of `b`) by two bare newlines: `b` left the item',
+  [repro('C13', 'range-format', '- a\n\n  b', cfg(), {'start': 4, 'end': 4}), repro('C13', 'range-format', '- a\n\n  - b', cfg(), {'start': 4, 'end': 4})]),
+ ('FX21-range-indent-newlines', ['C13'], 'range formatting inferred the indentation only after LF', '`- a\r  / T: d\r    + x` (CR line ends), range 3..7: indentation 0 instead of 2',
+  [repro('C13', 'range-format', '- a\r  / T: d\r    + x', cfg(), {'start': 3, 'end': 7}), repro('C13', 'range-format', '- a\u2029  - b\n    - c', cfg(), {'start': 3, 'end': 9})]),
+ ('FX22-range-breaks-in-equation', ['C13'], 'range formatting inside an equation could break code embedded', 'range 2..6 of `$#f.f.gg(x)$` at width 0 returned a dot chain broken over lines, which ends the embedded expression',
+  [repro('C13', 'range-format', '$#f.f.gg(x)$', cfg(0), {'start': 2, 'end': 6})]),
 ]
 for fid, props, commit_key, what, repros in fixed:
+    assert commit_of(commit_key), commit_key
     findings.append({'id': fid, 'status': 'fixed', 'properties': props, 'commit': commit_of(commit_key), 'what': what, 'classifier': '', 'params': None, 'repros': repros})
 
 # ---------------------------------------------------------------------------------------------------------------
@@ -89,7 +108,7 @@ classes = [
  ('F08-eol-blanks-inside-literals', ['C01', 'C02', 'C03', 'C06', 'C08', 'C10', 'C13'], 'repair', {'repair': 'eol_blank_in_literal'},
   'blanks before a line break inside a multi-line string / raw literal are stripped by the post-pass (pinned by upstream snapshots of 5 fixtures, so not repairable without editing tests)',
   [repro('C10', 'literal-stream', '#"a  \n  b"', cfg(0)), repro('C10', 'literal-stream', '```typ\n#link() \n```', cfg(0))]),
- ('F08b-cr-inside-literals', ['C01', 'C02', 'C10', 'C06', 'C03', 'C13'], 'repair', {'repair': 'cr_in_literal'},
+ ('F08b-cr-inside-literals', ['C01', 'C02', 'C10', 'C06', 'C03', 'C13', 'C09'], 'repair', {'repair': 'cr_in_literal'},
   'CR / CRLF inside a multi-line string, raw literal or block comment is rewritten to LF by the line-based post-pass',
   [repro('C10', 'literal-stream', '#"a\r\nb"', cfg(0))]),
  ('F09-non-ascii-blank-at-line-end', ['C01', 'C02', 'C03', 'C08', 'C10', 'C13', 'C06'], 'repair', {'repair': 'nonascii_eol_blank'},
@@ -137,11 +156,14 @@ for f in sorted(glob.glob(f'{TRI}/C*.json')):
                          'what': f"{WHAT_KEYS.get(p, 'comment-position dependent defect')}; {len(keys)} position keys (shape|parent|grandparent|prev|next), e.g. {eg['key']} as in {eg['eg'][:70]!r}",
                          'classifier': 'comment_key', 'params': {'keys': keys},
                          'repros': [k['repro'] for k in sorted(d['comment_keys'], key=lambda k: -k['n']) if k.get('repro')][:3]})
-    shas = sorted({l['sha'] for l in d['leftovers']})
+    def kind(l):
+        w = ''.join(ch for ch in (l['detail'].split() or [''])[0] if ch.isascii() and ch.isalpha())
+        return f"{l.get('oracle','')}/{w}"
+    shas = sorted({f"{l['sha']}:{kind(l)}" for l in d['leftovers']})
     if shas:
         egs = [l for l in d['leftovers'] if l.get('input')][:3]
         findings.append({'id': f'X-{p}-listed-inputs', 'status': 'open', 'properties': [p],
-                         'what': f"{len(shas)} specific inputs of the closed pools (identified by SHA-256 prefix of the input text) that violate {p} for causes not covered by a class finding, e.g. " + '; '.join(repr(e['input'][:60]) + ' — ' + e['detail'][:80] for e in egs),
+                         'what': f"{len(shas)} specific inputs of the closed pools (identified by SHA-256 prefix of the input text plus the kind of failure) that violate {p} for causes not covered by a class finding, e.g. " + '; '.join(repr(e['input'][:60]) + ' — ' + e['detail'][:80] for e in egs),
                          'classifier': 'input_list', 'params': {'inputs': shas},
                          'repros': [{'property': p, 'oracle': e.get('oracle', ''), 'input': e['input'], 'cfg': e.get('cfg'), 'extra': e.get('extra'), 'origin': e['origin'], 'detail': ''} for e in egs]})
 
